@@ -1,5 +1,5 @@
 CONSTANTS
-  TKeys <- TKeys3  Vals <- Vals1  Noise <- Noise3  RTKeys <- RTKeys1  Cfgs <- Cfgs8
+  TKeys <- TKeys3  Vals <- Vals1  Noise <- Noise3  RTKeys <- RTKeys1  Cfgs <- Cfgs9
   MaxBatch = 2  MaxDepth = 2
   InitsOf <- InitsQ  TProbeKeys <- TProbe  TIterTable <- TIterTab
 SPECIFICATION Spec
